@@ -4,6 +4,7 @@ CONSTANTS Keys = {1, 2}
           N = 2
           BaseMax = 2
           Workers = {1}
+          SchedMuts = FALSE
           Sched = FALSE
           EmitCases = FALSE
 INVARIANTS HonestAccepted ParallelEqualsSequential WrongBALRejected CacheIsBase
